@@ -192,7 +192,7 @@ func oneLine(s string) string {
 func finish(rr *runResult, noReplay bool, t0 time.Time) {
 	id := rr.spec.ID
 	var inconcl []string
-	paths, steps, asserts, assertsNT := 0, 0, 0, 0
+	paths, steps, asserts, assertsNT, ntPaths := 0, 0, 0, 0, 0
 	status := map[string]int{}
 	reached := map[string]bool{}
 	covered := map[string]bool{}
@@ -209,6 +209,7 @@ func finish(rr *runResult, noReplay bool, t0 time.Time) {
 		steps += r.Steps
 		asserts += r.Asserts
 		assertsNT += r.AssertsNT
+		ntPaths += r.NTPaths
 		for k, n := range r.Status {
 			status[k] += n
 		}
@@ -364,8 +365,9 @@ func finish(rr *runResult, noReplay bool, t0 time.Time) {
 			"states": max1(paths), "transitions": max1(steps), "traces_validated_against_impl": validated,
 			"samples":             nonEmpty(samples, id),
 			"evaluations":         asserts,
-			"distinct_nontrivial": assertsNT,
-			"rule":                "states = feasible symbolic paths explored; transitions = SSA instructions executed; one evaluation = one assertion evaluated on a feasible path; non-trivial = the assertion did not fold to a constant and was decided by the solver (or by a witness model of the path condition)",
+			"distinct_nontrivial": ntPaths,
+			"assertions_solver_decided": assertsNT,
+			"rule":                "states = feasible symbolic paths explored; transitions = SSA instructions executed; one evaluation = one assertion evaluated on a feasible path; distinct_nontrivial = number of distinct feasible paths (distinct decision sequences) that evaluated at least one assertion and on which at least one branch, choice or assertion was decided by the solver (paths with no symbolic decision are trivial); assertions_solver_decided = assertion evaluations that did not fold to a constant",
 			"functions_encoded":   classifyFuncs(funcs),
 			"substitutions":       rr.spec.Subst,
 			"bounds":              rr.spec.Bounds,
